@@ -288,7 +288,9 @@ def check_index_local(run, A):
     if not loops:
         raise AnalysisError('ComplexBinghamTrainer._fit: loop over independent problems not found')
     from ..walk import loop_role
-    L = loops[0]
+    # (the loop that calls the per-problem solver - a later change may put other loops, e.g. a block-wise decomposition, in front of it)
+    with_solver = [l for l in loops if any(e.kind == 'call' and call_parts(e.term)[0] and call_parts(e.term)[0].endswith('find_eigenvalues_v3') for e in l.body_events)]
+    L = with_solver[0] if with_solver else loops[0]
     # one problem per leading index: np.ndindex(leading shape), or a plain / enumerate loop over the (flattened) eigenvalue sets
     it = strip_views(L.iter)
     ok = is_call_to(it, 'numpy.ndindex', 'builtin.range', 'builtin.enumerate', 'builtin.zip') or it.op in ('call', 'param', 'sub', 'mu', 'attr')
